@@ -98,6 +98,25 @@ type Interp struct {
 	steps   int
 	globals map[*ssa.Global]*ICell
 	Unknown []string
+	// OnCall lets a rule intercept calls (e.g. record writes to a buffer the evaluator does not model).
+	OnCall func(call *ssa.Call, args []IVal) (IVal, bool)
+}
+
+// NewStructCell returns a zeroed cell for a value of struct type t.
+func NewStructCell(t types.Type) *ICell { return newCell(t) }
+
+// Field returns the cell of field name of a struct cell created for type t.
+func (c *ICell) Field(t types.Type, name string) *ICell {
+	st, ok := t.Underlying().(*types.Struct)
+	if !ok {
+		return nil
+	}
+	for i := 0; i < st.NumFields() && i < len(c.Fields); i++ {
+		if st.Field(i).Name() == name {
+			return c.Fields[i]
+		}
+	}
+	return nil
 }
 
 func NewInterp(c *Ctx) *Interp { return &Interp{c: c, globals: map[*ssa.Global]*ICell{}} }
@@ -729,6 +748,11 @@ func (it *Interp) call(x *ssa.Call, get func(ssa.Value) IVal, depth int) (IVal, 
 	var args []IVal
 	for _, a := range Args(x) {
 		args = append(args, get(a))
+	}
+	if it.OnCall != nil {
+		if v, ok := it.OnCall(x, args); ok {
+			return v, nil
+		}
 	}
 	callee := x.Call.StaticCallee()
 	if callee != nil && len(callee.Blocks) > 0 && curProgRoot(callee) {
